@@ -326,6 +326,22 @@ OpClear(tb, t) ==
                                !.len = 0],
             ev |-> Ev("clear", t, 0, 0, 0, {}, 0, "ok", 0, <<>>, <<>>), sit |-> TrailSit(tb, w)]
 
+(* clear_no_drop(): the same slot walk as clear() *)
+OpClearNd(tb, t) ==
+  LET w == Walk(tb)
+  IN  IF w.short THEN HangEv("clear_nd", t, 0, 0, {}, 0)
+      ELSE [tab |-> [tb EXCEPT !.data = [i \in 1 .. Cap(tb) |-> IF i <= w.lastI THEN FREE ELSE tb.data[i]],
+                               !.len = 0],
+            ev |-> Ev("clear_nd", t, 0, 0, 0, {}, 0, "ok", 0, <<>>, <<>>), sit |-> TrailSit(tb, w)]
+
+(* reset_no_drop(): len = 0, the slot array is replaced by an empty one, free = 0
+   (fix in /repo; variant HT_VARIANT_reset_stale: the code before that fix left
+   `free` untouched, so the next reserve(1) saw free slots in an array of length 0) *)
+ResetStale == "HT_VARIANT_reset_stale" \in DOMAIN IOEnv
+OpReset(tb, t) ==
+  [tab |-> [data |-> <<>>, len |-> 0, free |-> IF ResetStale THEN tb.free ELSE 0, hung |-> FALSE],
+   ev |-> Ev("reset_nd", t, 0, 0, 0, {}, 0, "ok", 0, <<>>, <<>>), sit |-> "reset"]
+
 OpReserve(tb, t, n) ==
   LET t1 == Reserve(tb, n)
   IN  IF t1.hung THEN HangEv("reserve", t, 0, 0, {}, n)
@@ -374,6 +390,8 @@ DoIntoIter(t)     == On("into_iter") /\ Live(t) /\ last' = WithChg(OpIntoIter(ta
 DoIter(t)         == On("iter") /\ Live(t) /\ last' = WithChg(OpIter(tabs[t], t), tabs[t]) /\ Commit(t)
 DoLen(t)          == On("len") /\ Live(t) /\ last' = WithChg(OpLen(tabs[t], t), tabs[t]) /\ Commit(t)
 DoClear(t)        == On("clear") /\ Live(t) /\ last' = WithChg(OpClear(tabs[t], t), tabs[t]) /\ Commit(t)
+DoClearNd(t)      == On("clear_nd") /\ Live(t) /\ last' = WithChg(OpClearNd(tabs[t], t), tabs[t]) /\ Commit(t)
+DoReset(t)        == On("reset_nd") /\ Live(t) /\ last' = WithChg(OpReset(tabs[t], t), tabs[t]) /\ Commit(t)
 DoReserve(t, n)   == On("reserve") /\ Live(t) /\ last' = WithChg(OpReserve(tabs[t], t, n), tabs[t]) /\ Commit(t)
 DoClone(t, u) ==
   /\ On("clone") /\ t # u /\ Live(t) /\ Live(u)
@@ -388,7 +406,7 @@ Next ==
     \/ \E k \in Key : DoGet(t, k)
     \/ \E k \in Key : DoRemove(t, k)
     \/ \E P \in Preds : DoRetain(t, P)
-    \/ DoDrain(t) \/ DoIntoIter(t) \/ DoIter(t) \/ DoLen(t) \/ DoClear(t)
+    \/ DoDrain(t) \/ DoIntoIter(t) \/ DoIter(t) \/ DoLen(t) \/ DoClear(t) \/ DoClearNd(t) \/ DoReset(t)
     \/ \E n \in ResArgs : DoReserve(t, n)
     \/ \E u \in Tab : DoClone(t, u)
 
@@ -420,7 +438,7 @@ RefStep ==
     [] e.op = "into_iter" -> A!AIntoIter(e.t)
     [] e.op = "iter"      -> A!AIter(e.t)
     [] e.op = "len"       -> A!ALen(e.t)
-    [] e.op = "clear"     -> A!AClear(e.t)
+    [] e.op \in {"clear", "clear_nd", "reset_nd"} -> A!AClear(e.t)
     [] e.op = "reserve"   -> e.n \in ResArgs /\ A!AReserve(e.t, e.n)
     [] e.op = "clone"     -> A!AClone(e.t, e.u)
     [] OTHER              -> FALSE
